@@ -19,30 +19,51 @@ LEVEL_TEXT = ('Full. Coq theorems over a hand-written state-machine model of VTK
               'array has one record per point/cell; write() returns the writer unchanged and any number of writes is identical '
               '(C20_repeated_writes_identical). The three formerly failing configurations are regression theorems and fixed known findings '
               '(F9-F11) replayed on every run. The model is tied to the source by token-for-token comparison with the files the '
-              'implementation writes; the Coq reader and consistency check are also run on those files.')
+              'implementation writes; the Coq reader and consistency check are also run on those files. '
+              'Round 4: (1) number formatting at the word level (model/M_C20_Num.v): integers are modelled by fmt_int and read back exactly for EVERY '
+              'integer (C20_int_token_roundtrip, C20_int_number_word, C20_count_word_roundtrip, C20_int_words_distinct); every word that renders a '
+              'token in the writer\'s formats is lexed back to that token (C20_word_roundtrip) and ANY file whose first two lines are the writer\'s and whose '
+              'words render the model\'s tokens parses to the supplied dataset (C20_text_roundtrip); floats: the shortest-repr algorithm of CPython/numpy is NOT '
+              'modelled, its contract is the named hypothesis float_repr_contract (C20_float_word_under_repr_contract), checked per token on every run with '
+              'Coq\'s own correctly rounded decimal->binary64 / binary32 reader (round_bin: an executable definition, not proved against an IEEE specification). '
+              'The files now reach Coq as TEXT (first two lines + whitespace-separated words): lexing, token comparison with the model, reading and the '
+              'comparison with the supplied dataset all happen inside Coq; the harness lexer is diagnostic only and cross-checked on a sample. '
+              '(2) structural AST tie (model/M_C20_CFG.v, gen/CFG_vtk.v regenerated on every run by tools/vlib/extract_vtk.py, fail closed): order and presence '
+              'of the section writers in write(), the keyword words of every vtkFile.write, the loops over spheres / contact edges / field dict and the guards of '
+              'POINT_DATA / CELL_DATA equal the hand model\'s structure table BY COMPUTATION (C20_source_structure_is_model_structure); the IR interpreted on the '
+              'shape of a state gives the keyword tokens of the model file on concrete states (C20_structure_trace_examples) and on a sample of scenario states per run. '
+              'NOT PROVED: float_repr_contract for CPython; correctness of round_bin w.r.t. IEEE 754; the line/word splitting (str.split in the harness); '
+              'the keyword-trace equality for ALL states (only the table equality is for all paths; the interpreter equality is per state).')
 TECHNIQUE = 'Coq proof over a hand model (lists/nat/Z, opaque exact-rational value tokens) + vm_compute correspondence on real .vtk files'
-GEN = []
-TARGETS = ['model/M_C20.vo', 'proofs/L_C20.vo', 'proofs/L_C20w.vo']
-COQ_FILES = ['model/M_C20.v', 'proofs/L_C20.v', 'proofs/L_C20w.v', 'props/P_C20.v']
+GEN = ['CFG_vtk']
+TARGETS = ['model/M_C20.vo', 'model/M_C20_Num.vo', 'proofs/L_C20.vo', 'proofs/L_C20w.vo', 'proofs/L_C20n.vo', 'model/M_C20_CFG.vo', 'proofs/L_C20c.vo']
+COQ_FILES = ['model/M_C20.v', 'model/M_C20_Num.v', 'proofs/L_C20.v', 'proofs/L_C20w.v', 'proofs/L_C20n.v', 'model/M_C20_CFG.v', 'proofs/L_C20c.v', 'props/P_C20.v']
 TRUSTED = ['Coq 8.16.1 kernel + vm_compute (no native_compute)',
            'hand-written model coq/model/M_C20.v of optimism/VTKWriter.py, tied by exact token comparison on every run',
-           'harness lexer: first two lines are the magic/title tokens, the rest is split on whitespace; integer literals and '
-           'decimal literals are mapped to the exact rational value a reader of doubles obtains (Fraction(float(s))); '
-           'names are mapped to ids; supplied numpy scalars are mapped to their exact value',
+           'harness: the file text is split into its first two lines and the whitespace-separated words of the rest (str.split) and field names '
+           'are given ids; the mapping of words to tokens (keywords, integer literals exact, decimal literals -> nearest double) is done by the Coq lexer '
+           'M_C20_Num.lex_file (the Python lexer with Fraction(float(s)) is diagnostic and cross-checked against it on a sample of files per run); '
+           'supplied numpy scalars are mapped to their exact rational value',
+           'M_C20_Num.round_bin as the meaning of "nearest binary64 / binary32 value of a decimal literal" (executable definition; agreement with '
+           'Python float() / numpy.float32() is checked per token, including subnormals, ties and random bit patterns)',
+           'tools/vlib/extract_vtk.py (AST -> output-structure IR; fail closed on any output statement it does not recognise)',
            'the legacy-VTK subset accepted by the Coq reader (ASCII, UNSTRUCTURED_GRID, POINT_DATA before CELL_DATA, '
            'SCALARS with LOOKUP_TABLE default / VECTORS / TENSORS) is our reading of the VTK file-format description']
 ASSUMPTIONS = ['field names are whitespace-free identifiers that are not VTK keywords; sphere_radius is a reserved key (a user field of that name is replaced when spheres exist, in the code and in the specification)',
                'the mesh is not mutated between add_* calls and write() (the model gathers coordinates/connectivity once)',
                'connectivity / contact-edge ids refer to output nodes (mesh.simplexNodesOrdinals is 0..nVertices-1, as produced by '
                'optimism.Mesh); stated as hypothesis in_range',
-               'numeric formatting of numpy scalars by str.format is not modelled (values are opaque tokens); exactness of the '
-               'decimal round trip is checked on the explored files only']
+               'float_repr_contract (named hypothesis of C20_float_word_under_repr_contract): the text CPython / numpy produce for a finite floating '
+               'scalar is a decimal literal that is not an integer literal and whose correctly rounded value at that precision is the scalar; the '
+               'algorithm is not modelled, the contract is checked per token (every float word of every explored file, plus extreme / random doubles '
+               'and float32 values) with the Coq reader; integer formatting IS modelled (fmt_int) and tied per token']
 RULE = ('scenarios: structured meshes 2..4 x 2..4 of order 1..4 (order 2 and 3 also with bubble), a random sequence of add_nodal_field / '
         'add_cell_field (scalar/vector/tensor, spatial dimension 1..3, every VTKDataType label, float64/float32/int64/int32 data, '
         'repeated names, wrong-length cell data), add_sphere, add_contact_edges and 1..3 write() calls, all combinations allowed.  '
         'A scenario is non-trivial when it has at least one field, sphere or contact edge; '
         'distinct = distinct (mesh, operation sequence) tuples; evaluations = files written and compared')
-IMPORTS = ['From OV.model Require Import M_C20.']
+IMPORTS = ['From OV.model Require Import M_C20 M_C20_Num M_C20_CFG.', 'From OV.gen Require Import CFG_vtk.']
+STR_PRE = 'From Coq Require Import String.\nOpen Scope string_scope.'
 
 KW = {'ASCII': 'KAscii', 'DATASET': 'KDataset', 'UNSTRUCTURED_GRID': 'KUGrid', 'POINTS': 'KPoints', 'CELLS': 'KCells',
       'CELL_TYPES': 'KCellTypes', 'POINT_DATA': 'KPointData', 'CELL_DATA': 'KCellData', 'LOOKUP_TABLE': 'KLookup', 'default': 'KDefault'}
@@ -81,6 +102,16 @@ def lex(text, names):
                 names.append(s)
             toks.append(('N', names.index(s)))
     return toks
+
+
+def coq_str(x):
+    return '"%s"' % x.replace('"', '""')
+
+
+def file_words(text):
+    """the first two lines and the whitespace-separated words of the rest (the input of M_C20_Num.lex_file)"""
+    lines = text.split('\n')
+    return [lines[0].rstrip(), lines[1] if len(lines) > 1 else ''] + ' '.join(lines[2:]).split()
 
 
 def tok_coq(t):
@@ -321,24 +352,74 @@ def evaluate(ctx, scenarios, model_ok, tag):
         for si, (sc, files, info, mops) in enumerate(runs):
             lexed = [lex(f, names) for f in files]
             runs[si] = (sc, files, info, mops, lexed)
-            for j, toks in enumerate(lexed):
-                exprs.append('read_file [%s]' % '; '.join(tok_coq(t) for t in toks))
-                where.append(('read', si, j))
+        names_term = '[%s]' % '; '.join(coq_str(nm) for nm in names)
+
+        def words_term(text):
+            return '[%s]' % '; '.join(coq_str(x) for x in file_words(text))
+        # The words of the real files go to Coq as TEXT: the Coq lexer (model/M_C20_Num.v: read_int / read_dec / round_bin, keyword
+        # table) maps them to tokens, and Coq compares them with the model's tokens, runs the independent reader on them and compares
+        # the parsed dataset with the supplied one; only the verdicts come back.  The harness lexer is used for diagnostics only and is
+        # itself cross-checked against the Coq lexer on a sample of files.
+        for si, (sc, files, info, mops, lexed) in enumerate(runs):
             if model_ok:
-                exprs.append('run_scenario %s [%s]' % (mesh_term(sc), '; '.join(mops)))
+                exprs.append('check_scenario %s %s [%s] [%s]' % (names_term, mesh_term(sc), '; '.join(mops), '; '.join(words_term(f) for f in files)))
                 where.append(('model', si, None))
-        res = C.coq_eval(IMPORTS, exprs, 'C20' + tag, shard=12, timeout=900) if exprs else []
+            else:
+                for j, text in enumerate(files):
+                    exprs.append('diag_words %s %s' % (names_term, words_term(text)))
+                    where.append(('read', si, j))
+        # structural tie, dynamic side: the IR extracted from the source (gen/CFG_vtk.v), interpreted on the shape of the model state,
+        # must give the keyword tokens of the model's file at every write() (a sample of the scenarios; the static side is a theorem)
+        if model_ok:
+            for si in range(min(len(runs), ctx.n(30, 250))):
+                exprs.append('trace_scenario cfg_vtk consts_vtk %s [%s]' % (mesh_term(runs[si][0]), '; '.join(runs[si][3])))
+                where.append(('trace', si, None))
+        lex_sample = [(si, j) for si, rn in enumerate(runs) for j in range(len(rn[1]))]
+        lex_sample = lex_sample[:3] + [lex_sample[k] for k in sorted(set(ctx.rng('lexsample' + tag).randrange(len(lex_sample)) for _ in range(ctx.n(8, 40))))] if lex_sample else []
+        for si, j in lex_sample:
+            exprs.append('read_words %s %s' % (names_term, words_term(runs[si][1][j])))
+            where.append(('lex', si, j))
+        res = C.coq_eval(IMPORTS, exprs, 'C20' + tag, shard=12, timeout=900, preamble=STR_PRE) if exprs else []
         reads, models = {}, {}
+        nwords = 0
         for (kind, si, j), zs in zip(where, res):
-            if kind == 'read':
+            if kind == 'lex':
+                sg = segments(zs)
+                coq_toks = dec_toks(sg[0])
+                py_toks = runs[si][4][j]
+                nwords += len(coq_toks)
+                if coq_toks != py_toks:
+                    d = next((i for i, (a, b) in enumerate(zip(coq_toks, py_toks)) if a != b), min(len(coq_toks), len(py_toks)))
+                    wds = file_words(runs[si][1][j])
+                    ctx.fail('correspondence', 'write #%d: word %d (%r) is token %r for the Coq lexer but %r for the harness lexer (float()/int() of Python)'
+                             % (j, d, wds[d] if d < len(wds) else None, coq_toks[d] if d < len(coq_toks) else None,
+                                py_toks[d] if d < len(py_toks) else None), case=dict(scenario=runs[si][0], write_index=j, clause='lexer'))
+            elif kind == 'trace':
+                ctx.count('writes_with_ir_keyword_trace_compared' + ('' if tag == 'm' else '_' + tag), len(zs))
+                if any(z != 1 for z in zs):
+                    ctx.fail('correspondence', 'structural tie: the keyword trace of the IR extracted from VTKWriter.py differs from the keyword tokens of the '
+                             'model file (per write: %r)' % (zs,), case=dict(scenario=runs[si][0], clause='structure'))
+            elif kind == 'read':
                 reads[(si, j)] = segments(zs)
             else:
                 models[si] = segments(zs)
+        # scenarios on which the model gave no verdicts (it raised / lost step with the files): the reader alone on their files
+        lost = [si for si, rn in enumerate(runs) if model_ok and (models.get(si) is None or any(x is None for x in models[si]) or len(models[si]) != 3 * len(rn[1]))]
+        if lost:
+            ex2 = ['diag_words %s %s' % (names_term, words_term(f)) for si in lost for f in runs[si][1]]
+            wh2 = [(si, j) for si in lost for j in range(len(runs[si][1]))]
+            for (si, j), zs in zip(wh2, C.coq_eval(IMPORTS, ex2, 'C20l' + tag, shard=12, timeout=900, preamble=STR_PRE)):
+                reads[(si, j)] = segments(zs)
+        ctx.count('words_lexed_by_coq_and_by_harness_lexer' + ('' if tag == 'm' else '_' + tag), nwords)
+        nw = sum(len(file_words(f)) for rn in runs for f in rn[1])
+        ctx.count('words_of_real_files_lexed_by_coq' + ('' if tag == 'm' else '_' + tag), nw)
+        ctx.count('float_literal_words_read_by_coq' + ('' if tag == 'm' else '_' + tag),
+                  sum(1 for rn in runs for f in rn[1] for x in file_words(f)[2:] if _NUM.match(x) and not _INT.match(x)))
         for si, (sc, files, info, mops, lexed) in enumerate(runs):
             msegs = models.get(si)
-            if model_ok and (msegs is None or any(s is None for s in msegs) or len(msegs) != 2 * len(files)):
+            if model_ok and (msegs is None or any(s is None for s in msegs) or len(msegs) != 3 * len(files)):
                 ctx.fail('correspondence', 'model raised / produced %s outputs where the implementation wrote %d files'
-                         % ('no' if msegs is None else len(msegs) // 2, len(files)), case=dict(scenario=sc))
+                         % ('no' if msegs is None else len(msegs) // 3, len(files)), case=dict(scenario=sc))
                 msegs = None
             for j, toks in enumerate(lexed):
                 nfiles += 1
@@ -348,14 +429,20 @@ def evaluate(ctx, scenarios, model_ok, tag):
                                         cell_data=scan_count(toks, 9))
                 # L1: model tokens == implementation tokens
                 if msegs is not None:
-                    mt = dec_toks(msegs[2 * j])
-                    if mt != toks:
-                        d = next((i for i, (a, b) in enumerate(zip(mt, toks)) if a != b), min(len(mt), len(toks)))
-                        ctx.fail('correspondence', 'write #%d: model token %d = %r but the file has %r (model %d tokens, file %d)'
-                                 % (j, d, mt[d] if d < len(mt) else None, toks[d] if d < len(toks) else None, len(mt), len(toks)),
+                    da = msegs[3 * j]
+                    if da[0] != -1:
+                        n1 = da[1]
+                        t1 = dec_toks(da[2:2 + n1])
+                        n2 = da[2 + n1]
+                        t2 = dec_toks(da[3 + n1:3 + n1 + n2])
+                        wds = file_words(files[j])
+                        ctx.fail('correspondence', 'write #%d: model token %d = %r but the file has %r (word %r; model %d tokens, file %d)'
+                                 % (j, da[0], t1[0] if t1 else None, t2[0] if t2 else None, wds[da[0]] if da[0] < len(wds) else None, da[-2], da[-1]),
                                  case=dict(base, clause='tokens'))
                 # L2: the Coq reader and consistency check on the real file
-                seg = reads[(si, j)]
+                seg = [msegs[3 * j + 1], msegs[3 * j + 2]] if msegs is not None else reads.get((si, j))
+                if seg is None:      # the model broke for this scenario: no verdict from the reader in this pass
+                    continue
                 diag = seg[0]
                 stage = diag[0]
                 flags = diag[1:] if len(diag) == 6 else None
@@ -373,7 +460,7 @@ def evaluate(ctx, scenarios, model_ok, tag):
                                    base['declared']['points'], stage)))
                 if stage == 5 or (flags and not flags[4]):
                     bad.append(('cd', 'CELL_DATA section: declared %r for %r CELLS, stage %d' % (base['declared']['cell_data'], base['declared']['cells'], stage)))
-                if not bad and msegs is not None and seg[1] != msegs[2 * j + 1]:
+                if not bad and msegs is not None and seg[1] != [1]:
                     bad.append(('roundtrip', 'the file parses to a dataset different from the one supplied'))
                 if j > 0 and inf['nothing_since_last_write'] and files[j] != files[j - 1]:
                     a0, p0, c0 = split_sections(lexed[j - 1])
@@ -432,7 +519,7 @@ def py_read(text):
     return out
 
 
-def dtype_stream(ctx):
+def dtype_stream(ctx, model_ok=True):
     """L2 without the model: (1) values of every numpy dtype, written under the matching VTK label, read back AT THAT DTYPE
     equal the supplied values exactly (full-precision float32 / float64, extreme integers); (2) geometry of the written cells
     against the mesh itself: same vertex coordinates per element, counter-clockwise, mid-side nodes of quadratic cells at the
@@ -445,6 +532,7 @@ def dtype_stream(ctx):
     os.makedirs(workdir, exist_ok=True)
     FTE = [V.VTKFieldType.SCALARS, V.VTKFieldType.VECTORS, V.VTKFieldType.TENSORS]
     n_checked = 0
+    coq_words = []
     try:
         combos = [(o, b) for o in (1, 2, 3, 4) for b in (False, True) if not (b and o not in (2, 3))]
         for rep in range(ctx.n(2, 12)):
@@ -509,6 +597,10 @@ def dtype_stream(ctx):
                         want = np.zeros((rows, 3, 3), npdt)
                         want[:, :dim, :dim] = d0
                         want = want.reshape(rows, 9)
+                    # the same words through Coq's own decimal reader at the labelled precision (a sample per field)
+                    wflat = want.reshape(-1)
+                    for ix in set([r.randrange(wflat.shape[0]) for _ in range(4)]):
+                        coq_words.append((strs[ix], npdt, int(wflat[ix]) if not npdt.startswith('float') else Fraction(float(wflat[ix])), case))
                     if got.shape[0] < rows or not np.array_equal(got[:rows], want) or np.any(got[rows:] != 0):
                         ctx.fail('conclusion', 'dtype stream: %s %s field of dtype %s does not read back exactly at that dtype (order %d)' % (kind, ['scalar', 'vector', 'tensor'][ft], npdt, order),
                                  case=case, concrete=True)
@@ -533,7 +625,64 @@ def dtype_stream(ctx):
     finally:
         shutil.rmtree(workdir, ignore_errors=True)
     ctx.count('dtype_stream_files', n_checked)
+    # ---- per-token check of the number-format hypotheses with the Coq reader (model/M_C20_Num.v):
+    # float64 words -> read_num (correctly rounded to binary64), float32 words -> read_num32, integer words -> read_num (exact)
+    if model_ok and coq_words:
+        exprs = ['enc_ov (%s %s)' % ('read_num32' if npdt == 'float32' else 'read_num', coq_str(wd)) for wd, npdt, _, _ in coq_words]
+        res = C.coq_eval(IMPORTS, exprs, 'C20w', shard=400, timeout=600, preamble=STR_PRE)
+        for (wd, npdt, want, case), zs in zip(coq_words, res):
+            got = Fraction(zs[1], zs[2]) if zs and zs[0] == 1 else None
+            ctx.count('dtype_words_read_by_coq_' + npdt)
+            if got != Fraction(want):
+                ctx.fail('conclusion', 'number format: the word %r written for the %s value %r reads back (Coq reader at that precision) as %r'
+                         % (wd, npdt, want, got), case=dict(case, clause='numfmt', word=wd, dtype=npdt), concrete=True)
     return n_checked
+
+
+def intfmt_stream(ctx, model_ok):
+    """tie of fmt_int (model/M_C20_Num.v) to the implementation's integer formatting: '{}'.format / str of Python ints and numpy
+    integer scalars, and of the named float hypothesis on extreme doubles: repr(x) read by the Coq reader is x"""
+    import numpy as np
+    if not model_ok:
+        return
+    r = ctx.rng('intfmt')
+    ints = [0, -1, 1, 9, 10, -10, 99, 100, 2 ** 31 - 1, -2 ** 31, 2 ** 63 - 1, -2 ** 63, 10 ** 30, -10 ** 30]
+    ints += [r.randrange(-10 ** k, 10 ** k) for k in range(1, 25) for _ in range(ctx.n(2, 8))]
+    exprs, want = [], []
+    for z in ints:
+        if -2 ** 63 <= z < 2 ** 63:
+            txt = '{}'.format(np.int64(z))
+            if -2 ** 31 <= z < 2 ** 31 and r.random() < 0.5:
+                txt = '{}'.format(np.int32(z))
+        else:
+            txt = '{}'.format(z)
+        if str(z) != txt:
+            ctx.fail('conclusion', 'numpy integer %d is formatted as %r, str(int) gives %r' % (z, txt, str(z)), case=dict(clause='intfmt', z=z), concrete=True)
+        exprs.append('enc_str (fmt_int (%d))' % z)
+        want.append([ord(c) for c in txt])
+    fl = [5e-324, 2.2250738585072014e-308, 2.225073858507201e-308, 1.7976931348623157e308, 0.1, 1.0 / 3.0, 1e16 + 2.0, 1e22, 1e23, 9007199254740993.0,
+          123456789.123456789, 1e-5, 1e-4, 1e16, 1e15, -0.0, 0.0, 2.0 ** -1074 * 3, 4.35e-322]
+    fl += [r.uniform(-1, 1) * 10.0 ** r.randrange(-320, 308) for _ in range(ctx.n(60, 400))]
+    fl += [np.array([r.getrandbits(64)], dtype=np.uint64).view(np.float64)[0] for _ in range(ctx.n(60, 400))]      # random bit patterns
+    fl = [float(x) for x in fl if np.isfinite(x)]
+    f32 = [np.array([r.getrandbits(32)], dtype=np.uint32).view(np.float32)[0] for _ in range(ctx.n(60, 400))]
+    f32 = [x for x in f32 if np.isfinite(x)]
+    nint = len(exprs)
+    for x in fl:
+        exprs.append('enc_ov (read_num %s)' % coq_str('{}'.format(np.float64(x))))
+        want.append([1, Fraction(x).numerator, Fraction(x).denominator])
+    for x in f32:
+        exprs.append('enc_ov (read_num32 %s)' % coq_str('{}'.format(x)))
+        fr = Fraction(float(x))
+        want.append([1, fr.numerator, fr.denominator])
+    res = C.coq_eval(IMPORTS, exprs, 'C20i', shard=400, timeout=600, preamble=STR_PRE)
+    for i, (e, w, g) in enumerate(zip(exprs, want, res)):
+        if list(g) != list(w):
+            ctx.fail('correspondence', 'number format: %s = %r, expected %r' % (e, g if i >= nint else ''.join(chr(c) for c in g), w if i >= nint else ''.join(chr(c) for c in w)),
+                     case=dict(clause='numfmt', expr=e))
+    ctx.count('fmt_int_words_compared', nint)
+    ctx.count('float64_repr_words_read_by_coq', len(fl))
+    ctx.count('float32_repr_words_read_by_coq', len(f32))
 
 
 def scenario_key(sc):
@@ -545,7 +694,8 @@ def correspondence(ctx, model_ok):
     n = ctx.n(70, 700)
     scenarios = [WITNESS['F9'], WITNESS['F10'], WITNESS['F11']] + [gen_scenario(r) for i in range(n)]
     nfiles = evaluate(ctx, scenarios, model_ok, 'm')
-    nfiles += dtype_stream(ctx)
+    nfiles += dtype_stream(ctx, model_ok)
+    intfmt_stream(ctx, model_ok)
     # report (not a failure: the caller chooses the label): fields whose VTK label class differs from the class of the supplied data,
     # and user fields stored under the reserved key sphere_radius (replaced by the marker radii whenever spheres exist)
     mism = resv = resv_replaced = 0
@@ -572,7 +722,8 @@ def correspondence(ctx, model_ok):
             hist[op['k']] = hist.get(op['k'], 0) + 1
     ctx.cov['histogram'] = hist
     ctx.sample(dict(scenario=scenarios[3]))
-    ctx.sample(dict(theorems=['C20_roundtrip_wellformed', 'C20_repeated_writes_identical', 'C20_double_write_regression']))
+    ctx.sample(dict(theorems=['C20_roundtrip_wellformed', 'C20_repeated_writes_identical', 'C20_double_write_regression',
+                              'C20_int_number_word', 'C20_text_roundtrip', 'C20_source_structure_is_model_structure']))
 
 
 def search(ctx, reasons):
